@@ -969,6 +969,9 @@ _PURE_METHODS = {"lower", "upper", "strip", "rstrip", "lstrip", "startswith", "e
                  "rpartition", "tobytes", "swapcase", "casefold", "isspace", "isupper", "islower", "expandtabs"}
 
 
+import string as _string
+_STDLIB_CONSTANTS = {"string." + n: getattr(_string, n) for n in ("hexdigits", "digits", "ascii_letters", "ascii_lowercase", "ascii_uppercase",
+                                                                   "octdigits", "punctuation", "printable", "whitespace")}
 _ITERTOOLS_PURE = {"call:itertools.pairwise", "call:itertools.accumulate", "call:itertools.batched", "call:itertools.islice",
                    "call:itertools.zip_longest", "call:itertools.product"}
 
@@ -985,7 +988,7 @@ def evaluate(t, env, memo=None):
     elif isinstance(t, Const):
         r = t.v
     elif isinstance(t, Ext):
-        r = t
+        r = _STDLIB_CONSTANTS.get(t.name, t)
     elif isinstance(t, Ref):
         hook = env.get("__ref__")
         if hook is None:
@@ -1141,6 +1144,11 @@ def evaluate(t, env, memo=None):
             r = b[i]
         elif op == "int" and len(t.args) == 1:
             r = int(evaluate(t.args[0], env, memo))
+        elif op == "int" and len(t.args) == 2:
+            s_, b_ = evaluate(t.args[0], env, memo), evaluate(t.args[1], env, memo)
+            if not isinstance(s_, (str, bytes)) or not isinstance(b_, int):
+                raise CannotEval(repr(t)[:120])
+            r = int(s_, b_)
         elif op in ("bytes", "bytearray", "memoryview") and len(t.args) == 1:
             v_ = evaluate(t.args[0], env, memo)
             if not isinstance(v_, (bytes, bytearray, memoryview, list, tuple, int)):
@@ -1153,6 +1161,16 @@ def evaluate(t, env, memo=None):
             if not isinstance(vals_[0], str) or any(not isinstance(x, (bytes, bytearray, memoryview, int)) for x in vals_[1:]):
                 raise CannotEval(repr(t)[:120])
             r = getattr(_struct, op.rsplit(".", 1)[1])(*vals_, **kw_)       # (a struct.error propagates: the code would raise it too)
+        elif op in ("call:frozenset", "call:set", "frozenset", "set") and len(t.args) <= 1:
+            v_ = evaluate(t.args[0], env, memo) if t.args else ()
+            if not isinstance(v_, (str, bytes, list, tuple, range, frozenset, set)):
+                raise CannotEval(repr(t)[:120])
+            r = frozenset(v_)
+        elif op == "fromhex" and len(t.args) == 1:
+            v_ = evaluate(t.args[0], env, memo)
+            if not isinstance(v_, str):
+                raise CannotEval(repr(t)[:120])
+            r = bytes.fromhex(v_)             # (ValueError for non-hex text propagates, as in the code)
         elif op.startswith("attr:") and len(t.args) == 1:
             v_ = evaluate(t.args[0], env, memo)
             if isinstance(v_, tuple) and op[5:] in getattr(v_, "_fields", ()):
